@@ -18,6 +18,8 @@ pub struct Profile {
     pub writes: bool,
     pub value_ops: bool,
     pub tree_ops: bool,
+    /// `clear()` alone (C08: payloads are dropped when the arena is cleared)
+    pub clear_op: bool,
 }
 
 #[derive(Clone)]
@@ -243,7 +245,7 @@ pub fn explore(cfg: &RunCfg, known: &Known) -> Report {
         recs.push(Rec {
             parent: u32::MAX,
             op: Op::NewNode,
-            dbg: obs::debug_hash(&st.arena),
+            dbg: st.dbg,
             root: ri as u16,
         });
         let idx = (recs.len() - 1) as u32;
@@ -376,7 +378,7 @@ pub fn explore(cfg: &RunCfg, known: &Known) -> Report {
                     recs.push(Rec {
                         parent: c.parent,
                         op: c.op,
-                        dbg: obs::debug_hash(&c.st.arena),
+                        dbg: c.st.dbg,
                         root,
                     });
                     newstates.push(((recs.len() - 1) as u32, c.st));
@@ -414,7 +416,7 @@ pub fn explore(cfg: &RunCfg, known: &Known) -> Report {
             let v: Vec<u64> = pool.install(|| {
                 newstates
                     .par_iter()
-                    .map(|(_, st)| obs::hash64(&(st.key, judges::rich_observation(st))))
+                    .map(|(_, st)| obs::hash64(&(st.dbg, judges::rich_observation(st))))
                     .collect()
             });
             for (x, (idx, _)) in v.iter().zip(newstates.iter()) {
